@@ -366,6 +366,44 @@ func (x *c16) namedStringReceivers() {
 	}
 }
 
+// literalBackslashes: a string written as a literal in the template is the same string as one that arrives through a
+// binding - backslashes included (Liquid has no escape sequences) - for every filter, as receiver and as argument.
+func (x *c16) literalBackslashes() {
+	for _, str := range []string{`C:\temp\new`, `a\nb`, `tab\there`, `\`, `\\`, `quote\"x`, `100%\d`, `\u00e9\x41`} {
+		q := "'"
+		if strings.Contains(str, "'") {
+			q = "\""
+		}
+		if strings.Contains(str, q) {
+			continue
+		}
+		lit := q + str + q
+		for _, f := range []string{"size", "upcase", "capitalize", "strip", "url_encode", "escape", "strip_newlines", "newline_to_br", "downcase | size"} {
+			viaBinding := core.Run(x.e, "{{ s | "+f+" }}", map[string]any{"s": str})
+			viaLiteral := core.Run(x.e, "{{ "+lit+" | "+f+" }}", nil)
+			x.c.Eval(2)
+			x.c.Obs("laws_checked", 1)
+			x.c.Obs("literal_backslash_cases", 1)
+			if !viaBinding.OK() || !viaLiteral.Same(viaBinding) {
+				x.bad(f, "a string literal is exactly the characters between its quotes: the filter must see the same string as through a binding", str, nil, viaLiteral, viaBinding.Brief())
+			}
+		}
+		for _, f := range []string{"append", "prepend", "remove", "split", "replace"} {
+			arg2 := ""
+			if f == "replace" {
+				arg2 = ", '/'"
+			}
+			viaBinding := core.Run(x.e, "{{ s | "+f+": a"+arg2+" }}", map[string]any{"s": "x" + str + "y", "a": str})
+			viaLiteral := core.Run(x.e, "{{ s | "+f+": "+lit+arg2+" }}", map[string]any{"s": "x" + str + "y"})
+			x.c.Eval(2)
+			x.c.Obs("laws_checked", 1)
+			if !viaBinding.OK() || !viaLiteral.Same(viaBinding) {
+				x.bad(f, "a string literal used as argument is exactly the characters between its quotes", "x"+str+"y", []any{str}, viaLiteral, viaBinding.Brief())
+			}
+		}
+	}
+}
+
 func (x *c16) nonStringReceivers() {
 	cases := []struct {
 		v    any
@@ -418,6 +456,7 @@ func runC16(c *core.Ctx) {
 	if c.Shard == 0 && c.Begin("non-string receivers") {
 		x.nonStringReceivers()
 		x.namedStringReceivers()
+		x.literalBackslashes()
 		x.numberReceivers()
 	}
 	total := gen.CountStrings(len(c16Alpha), c.Pick(4, 5))
